@@ -37,6 +37,18 @@ void yk_assert_at(bool c, std::uint32_t line) {
         std::_Exit(1);
     }
 }
+static const void* g_watch = nullptr;
+static std::uint32_t g_wst = 0, g_wld = 0;
+void yk_watch(const void* p) { g_watch = p; g_wst = 0; g_wld = 0; }
+std::uint32_t yk_watch_store_count(void) { return g_wst; }
+std::uint32_t yk_watch_load_count(void) { return g_wld; }
+void yakushima_verif_hook(int kind, const void* addr) {
+    if (addr != nullptr && addr == g_watch) {
+        if (kind == 1) ++g_wst;
+        else if (kind == 0) ++g_wld;
+    }
+}
+void yakushima_verif_event(int, const void*, unsigned long) {}
 void yk_reach_at(std::uint32_t line) { std::printf("REACH reach:%u\n", line); }
 }
 
